@@ -6,6 +6,7 @@
 use crate::Ctx;
 use crate::gens::{Gen, GenCfg, NAMES};
 use crate::hexpr::*;
+use crate::hexpr::replace_nth_child;
 use crate::out::Sink;
 use crate::rng::Rng;
 use crate::rt::{self, Sess, format_source_lib, guard, parse_program, parse_program_ast};
@@ -65,61 +66,6 @@ fn kids(h: &H) -> Vec<H> {
 
 fn is_leaf(h: &H) -> bool {
     matches!(h, H::Id(_) | H::Num(_) | H::Str(_) | H::Bool(_) | H::Null | H::BuiltIn(_) | H::InRef(_))
-}
-
-fn replace_nth_child(h: &H, n: usize, new: &H) -> H {
-    // rebuild `h` with its n-th child (in for_children order) replaced
-    let mut i = 0usize;
-    let mut take = |c: &H| -> H {
-        let r = if i == n { new.clone() } else { c.clone() };
-        i += 1;
-        r
-    };
-    match h {
-        H::List(xs) => H::List(xs.iter().map(|x| take(x)).collect()),
-        H::Rec(es) => H::Rec(
-            es.iter()
-                .map(|(k, v)| match k {
-                    Key::Dyn(e) => {
-                        let ke = take(e);
-                        let ve = take(v);
-                        (Key::Dyn(Box::new(ke)), ve)
-                    }
-                    Key::Spread(e) => (Key::Spread(Box::new(take(e))), H::Null),
-                    Key::Static(s) => (Key::Static(s.clone()), take(v)),
-                    Key::Short(s) => (Key::Short(s.clone()), H::Null),
-                })
-                .collect(),
-        ),
-        H::Lam(a, b) => H::Lam(a.clone(), Box::new(take(b))),
-        H::Cond(a, b, c) => {
-            let (x, y, z) = (take(a), take(b), take(c));
-            H::Cond(Box::new(x), Box::new(y), Box::new(z))
-        }
-        H::Do(ss, r) => {
-            let s2: Vec<H> = ss.iter().map(|s| take(s)).collect();
-            H::Do(s2, Box::new(take(r)))
-        }
-        H::Assign(n2, v) => H::Assign(n2.clone(), Box::new(take(v))),
-        H::Output(v) => H::Output(Box::new(take(v))),
-        H::Un(u, v) => H::Un(*u, Box::new(take(v))),
-        H::Fact(v) => H::Fact(Box::new(take(v))),
-        H::Spread(v) => H::Spread(Box::new(take(v))),
-        H::Field(v, f) => H::Field(Box::new(take(v)), f.clone()),
-        H::Call(g, a) => {
-            let g2 = take(g);
-            H::Call(Box::new(g2), a.iter().map(|x| take(x)).collect())
-        }
-        H::Index(a, b) => {
-            let (x, y) = (take(a), take(b));
-            H::Index(Box::new(x), Box::new(y))
-        }
-        H::Bin(o, a, b) => {
-            let (x, y) = (take(a), take(b));
-            H::Bin(*o, Box::new(x), Box::new(y))
-        }
-        other => other.clone(),
-    }
 }
 
 /// Find the smallest sub-tree that does not survive formatting and name the printer decision at fault.
